@@ -415,7 +415,12 @@ func (a *NodeActor) handleGossip(ctx vivid.ActorContext, m *GossipMessage) {
 	}
 }
 
-// runGossipRoundWithTargets
+// runGossipRoundWithTargets 周期性 Gossip：同时承担心跳职责，不做"对方已是最新则跳过"的抑制。
+//
+// 成员的 LastSeen 仅在直接收到该成员发来的 Gossip 时刷新；若周期性 Gossip 也被抑制，
+// 稳定（无变更）的集群中将无人发送任何消息，所有成员的 LastSeen 停止更新，
+// 故障检测超时后健康的成员会互相判定为不可达并移除，集群自行瓦解。
+// 变更触发的即时广播（broadcastViewOnce）仍保留抑制以避免冗余同步。
 func (a *NodeActor) runGossipRoundWithTargets(ctx vivid.ActorContext, targets []string) {
 	if len(targets) == 0 {
 		return
@@ -428,9 +433,6 @@ func (a *NodeActor) runGossipRoundWithTargets(ctx vivid.ActorContext, targets []
 	for _, addr := range targets {
 		if !a.gossipRateLimiter.Allow() {
 			break
-		}
-		if !a.shouldSendGossipTo(snap.VersionVector, addr) {
-			continue
 		}
 		ref, err := ctx.System().CreateRef(addr, "/@cluster")
 		if err != nil {
